@@ -768,7 +768,8 @@ def _fmt_flags(fl):
         "[" + ",".join(map(str, s)) + "]" for s in fl["sets"])
 
 
-TRACED = ("readd", "start", "startv", "finish", "boom", "runnode", "runwf", "pull", "roundtrip", "inject", "fornode")
+TRACED = ("readd", "start", "startv", "finish", "boom", "runnode", "runwf", "pull", "roundtrip", "inject", "fornode",
+          "reload")
 
 
 class _Trace:
@@ -838,15 +839,53 @@ def run_impl(case):
                     T.log.append(("order", out, list(out.connections)))
         return r
 
+    from pyiron_workflow.node import Node
+
+    o_restore = Composite.__dict__["_restore_connections_from_strings"]
+    o_load = Node.load
+
+    def restore(nodes, connections, in_getter, out_getter):
+        # since f343608 the stored pairs are inserted into both lists directly (no `connect`)
+        if T.on:
+            for (inp_node, inp), (out_node, out) in reversed(connections):
+                try:
+                    ic, oc = in_getter(nodes[inp_node])[inp], out_getter(nodes[out_node])[out]
+                except Exception:  # noqa: BLE001 - the original stops here too
+                    break
+                T.log.append(("ins", ic, (oc,)))
+                if T.note:
+                    T.note(ic)
+                    T.note(oc)
+        return o_restore.__func__(nodes, connections, in_getter, out_getter)
+
+    def load(self, *a, **k):
+        # since f195940 a load in place hands every old channel's list to the loaded channel of the same label
+        olds = [] if vars(self).get("_parent") is None else [c for p in self._owned_io_panels for c in p]
+        r = o_load(self, *a, **k)
+        if T.on:
+            new = {(type(c), c.label): c for p in self._owned_io_panels for c in p}
+            for old in olds:
+                n = new.get((type(old), old.label))
+                if n is not None and n is not old:
+                    T.log.append(("move", old, (n,)))
+                    if T.note:
+                        T.note(old)
+                        T.note(n)
+        return r
+
     Channel.connect, Channel.disconnect = connect, disconnect
     topo._set_new_run_connections_with_fallback_recovery = recovery
     Composite._restore_firing_order = restore_order
+    Composite._restore_connections_from_strings = staticmethod(restore)
+    Node.load = load
     try:
         return _run_impl(case, T)
     finally:
         Channel.connect, Channel.disconnect = o_connect, o_disconnect
         topo._set_new_run_connections_with_fallback_recovery = o_recovery
         Composite._restore_firing_order = o_order
+        Composite._restore_connections_from_strings = o_restore
+        Node.load = o_load
 
 
 def _run_impl(case, T):
@@ -873,6 +912,7 @@ def _run_impl(case, T):
     locked: set[int] = set()
     wrapped: set[int] = set()
     byvalue: set[int] = set()  # composites / nodes in flight on a by-value executor
+    reloaded: set[int] = set()  # owners whose channels were exchanged by a load in place: the static table is stale
     xrows: list = []     # channels registered after the start: (owner index, panel, label)
     xowners: list = []   # labels of the owners registered after the start
     keep: list = []      # objects the harness made on the way (copies, injected nodes, loops)
@@ -955,7 +995,7 @@ def _run_impl(case, T):
 
         out = []
         for e in T.log:
-            touched = [e[1], *e[2]] if e[0] in ("c", "d", "order") else (e[1] if e[0] == "dagbegin" else [])
+            touched = [e[1], *e[2]] if e[0] in ("c", "d", "order", "ins", "move") else (e[1] if e[0] == "dagbegin" else [])
             if touched and all(id(x) not in index for x in touched):
                 # objects that lived only inside the operation (the copy a by-value executor ran on, ...)
                 out.append("#transient")
@@ -966,6 +1006,10 @@ def _run_impl(case, T):
                 out.append("t-disconnect " + " ".join(str(cid(x)) for x in (e[1], *e[2])))
             elif e[0] == "order":
                 out.append("t-order " + " ".join(str(cid(x)) for x in (e[1], *e[2])))
+            elif e[0] == "ins":
+                out.append(f"t-insert {cid(e[1])} {cid(e[2][0])}")
+            elif e[0] == "move":
+                out.append(f"t-move {cid(e[1])} {cid(e[2][0])}")
             elif e[0] == "dagbegin":
                 out.append("t-dagbegin " + " ".join(str(cid(x)) for x in e[1]))
             elif e[0] == "dagfail":
@@ -1079,9 +1123,13 @@ def _run_impl(case, T):
                     isinstance(x, int) and 0 <= x < lay.n for x in (op[2:] if kind == "connect" else op[1:])):
                 raise _Malformed()
             if kind in ("odisc", "query", "remove", "start", "startv", "finish", "runnode", "boom", "pull", "runwf",
-                        "roundtrip", "inject", "fornode") and not (
+                        "roundtrip", "inject", "fornode", "reload") and not (
                     isinstance(op[1], int) and 0 <= op[1] < N_OBJ):
                 raise _Malformed()
+            stale = [x for x in ({"remove": op[1:2], "replace": op[1:3], "copyio": op[2:4], "odisc": op[1:2],
+                                   "query": op[1:2]}.get(kind, [])) if x in reloaded]
+            if stale:
+                raise _Stale()
             if kind in ("odisc", "query"):
                 st["members_pre"] = members(objs[op[1]])
                 st["children_pre"] = ([oindex.get(id(ch), -1) for ch in objs[op[1]].children.values()]
@@ -1242,6 +1290,18 @@ def _run_impl(case, T):
             elif kind == "pull":
                 modelled = False
                 guarded(lambda: (sched.drain(), objs[op[1]].pull()))
+            elif kind == "reload":
+                modelled = False
+                X = objs[op[1]]
+                if op[1] in WFS:
+                    res = "skip"
+                else:
+                    X.save(backend="pickle")
+                    try:
+                        X.load(backend="pickle")
+                    finally:
+                        X.delete_storage(backend="pickle")
+                    reloaded.add(op[1])
             elif kind == "roundtrip":
                 modelled = False
                 if op[1] not in COMPOSITES:
@@ -1295,6 +1355,8 @@ def _run_impl(case, T):
                 raise _Malformed()
         except _Malformed:
             res = "malformed"
+        except _Stale:
+            res = "skip"
         except InjectedLock:
             res = "locked"
         except TypeError as e:
@@ -1385,6 +1447,10 @@ def _run_impl(case, T):
 
 class _Malformed(Exception):
     pass
+
+
+class _Stale(Exception):
+    """the operation is described through the static channel table of an owner that has been reloaded"""
 
 
 def _lines(s):
